@@ -6,5 +6,6 @@ CONSTANTS
   ChanSeqs <- MC_ChanSeqsQuick
   Subs = {1, 2}
   MaxEv = 2
+  AbandonSubs = {1}
   QMaxes = {0, 1}
 CHECK_DEADLOCK FALSE
